@@ -252,6 +252,10 @@ type blockSpec struct {
 	// Rearm: another goroutine clears the write deadline of the stream in the very instant it
 	// expires under a blocked write (a write either fails with nothing sent or is delivered)
 	Rearm bool
+	// CloseMid: (SameStream) the shared stream is closed while writer 0 waits with its deadline
+	// and writer 1 is queued behind it; afterwards a writer on another stream writes: it waits
+	// its turn like any other (a refused write has no effect on the queue discipline)
+	CloseMid bool
 }
 
 func blockScenario(spec *blockSpec) *Scenario {
@@ -361,6 +365,44 @@ func blockScenario(spec *blockSpec) *Scenario {
 						m.S.Yield()
 					}
 				}))
+			}
+			if spec.CloseMid {
+				if s1 := a.streams[1]; s1 != nil {
+					m.Sleep(200 * time.Millisecond)
+					_ = s1.Close()
+				}
+				m.Sleep(400 * time.Millisecond) // writer 0 has given up, writer 1 was refused
+				sx, _ := a.OpenStream(9, PayloadTypeWebRTCBinary)
+				sbx, _ := m.As[1].OpenStream(9, PayloadTypeWebRTCBinary)
+				m.streamsSeen = append(m.streamsSeen, sx, sbx)
+				readers = append(readers, m.Go("reader9", func() {
+					m.Sleep(3 * time.Second)
+					buf := make([]byte, 4000)
+					for {
+						n, _, err := sbx.ReadSCTP(buf)
+						if err != nil {
+							return
+						}
+						mu.Lock()
+						got[9] = append(got[9], string(buf[:n]))
+						mu.Unlock()
+					}
+				}))
+				data := payload(9, 0, 500)
+				if _, err := sx.WriteSCTP(data, PayloadTypeWebRTCBinary); err == nil {
+					mu.Lock()
+					if _, nb, ok := pendingContents(a.pendingQueue); ok && nb > 0 {
+						for _, c := range pendingChunks(a.pendingQueue) {
+							for old := range returned {
+								if len(c.userData) > 0 && isFragmentOf(old, string(c.userData), int(a.maxPayloadSize)) {
+									m.viol = append(m.viol, Violation{Oracle: "block.order", Msg: "a write on another stream returned while data of an earlier write is still in the pending queue (after a write on a closed stream had been refused)"})
+								}
+							}
+						}
+					}
+					want[9] = append(want[9], string(data))
+					mu.Unlock()
+				}
 			}
 			m.Join(ws...)
 			ok := m.WaitUntil("drain", 120*time.Second, func() bool {
@@ -537,6 +579,9 @@ func propC18(j *Job) {
 			if !j.Thorough() && mi > 0 && n == 3 {
 				continue
 			}
+			for _, past := range []time.Duration{0, time.Second} {
+				j.Explore(fmt.Sprintf("DI/%s/readers%d/past%v", mode.Name, n, past), interruptReadersScenario(withBase(mode.A, 228, 3, 4000), withBase(mode.B, 228, 4, 4000), n, past), Budget{D: 1}, nil)
+			}
 			j.Explore(fmt.Sprintf("D2/%s/readers%d", mode.Name, n), twoReadersDeadlineScenario(withBase(mode.A, 228, 3, 4000), withBase(mode.B, 228, 4, 4000), n), Budget{D: 1}, nil)
 			if j.capped() {
 				return
@@ -586,6 +631,14 @@ func propC18(j *Job) {
 						return
 					}
 				}
+				if nw == 2 && vi == 0 {
+					cs := *spec
+					cs.SameStream, cs.CloseMid = true, true
+					j.Explore(fmt.Sprintf("BW/%s/w%d/U%v/ppi%d/same-close", mode.Name, nw, v.u, v.ppi), blockScenario(&cs), Budget{D: 1}, nil)
+					if j.capped() {
+						return
+					}
+				}
 				if nw >= 2 && (j.Thorough() || (nw == 2 && vi == 0)) {
 					ss := *spec
 					ss.SameStream = true
@@ -601,6 +654,75 @@ func propC18(j *Job) {
 
 // twoReadersDeadlineScenario: two goroutines are blocked in ReadSCTP on one stream when its
 // read deadline expires: both must come back with the deadline error at that instant.
+// interruptReadersScenario: goroutines are blocked in ReadSCTP on an idle stream when another
+// goroutine sets the read deadline to an instant that has already passed (the net.Conn idiom for
+// interrupting a reader): they all come back with the deadline error at once, and the message
+// that arrives later is read normally after the deadline was cleared.
+func interruptReadersScenario(a, b epCfg, nReaders int, past time.Duration) *Scenario {
+	return &Scenario{
+		Name:    "interrupt-readers",
+		Horizon: 60 * time.Second,
+		Body: func(m *Sim) {
+			if !m.Connect(a, b) {
+				m.Failf("connect", "handshake failed")
+				m.closeFailedTransports()
+				m.CloseBoth()
+				return
+			}
+			sa, _ := m.As[0].OpenStream(1, PayloadTypeWebRTCBinary)
+			sb, _ := m.As[1].OpenStream(1, PayloadTypeWebRTCBinary)
+			m.streamsSeen = append(m.streamsSeen, sa, sb)
+			back := map[string]time.Duration{}
+			var ts []*vsched.Thread
+			for i := 0; i < nReaders; i++ {
+				name := fmt.Sprintf("rd%d", i)
+				ts = append(ts, m.Go(name, func() {
+					buf := make([]byte, 100)
+					_, _, err := sb.ReadSCTP(buf)
+					if !errors.Is(err, ErrReadDeadlineExceeded) {
+						m.Failf("deadline.error", "%s: interrupted read returned %v", name, err)
+					}
+					m.mu.Lock()
+					back[name] = m.S.Now()
+					m.mu.Unlock()
+				}))
+			}
+			m.Sleep(300 * time.Millisecond)
+			t0 := m.S.Now()
+			_ = sb.SetReadDeadline(time.Now().Add(-past))
+			m.WaitUntil("readers-back", 5*time.Second, func() bool {
+				for _, t := range ts {
+					if !t.Done {
+						return false
+					}
+				}
+				return true
+			})
+			for _, t := range ts {
+				m.mu.Lock()
+				at, ok := back[t.Name]
+				m.mu.Unlock()
+				if !ok {
+					m.Failf("deadline.instant", "%d readers blocked on an idle stream: %s is still blocked 5 s after the read deadline was set to an instant %v in the past", nReaders, t.Name, past)
+				} else if at != t0 {
+					m.Failf("deadline.instant", "%s returned at %v, the deadline was set (to the past) at %v", t.Name, at, t0)
+				}
+			}
+			// the stream is intact: clear the deadline, a message written now is read
+			_ = sb.SetReadDeadline(time.Time{})
+			want := payload(1, 0, 40)
+			_, _ = sa.WriteSCTP(want, PayloadTypeWebRTCBinary)
+			buf := make([]byte, 100)
+			if n, _, err := sb.ReadSCTP(buf); err != nil || string(buf[:n]) != string(want) {
+				m.Failf("deadline.lost", "after the interruption the next message was read as n=%d err=%v", n, err)
+			}
+			m.CloseBoth()
+			m.Join(ts...)
+		},
+		Final: func(m *Sim, x *Exec) { generalVerdicts(m, x, true) },
+	}
+}
+
 func twoReadersDeadlineScenario(a, b epCfg, nReaders int) *Scenario {
 	return &Scenario{
 		Name:    "readdeadline2",
